@@ -366,3 +366,26 @@ pub fn family_chain(k: usize, pattern: &[B], imm_every: usize) -> Prog {
     p.roots = vec![acc];
     p
 }
+
+/// Choice clauses separated by out-of-line calls: c1 = inner(h(x), y),
+/// c2 = outer(g(c1), z-or-const), c3 = inner(k(c2) , x): call, choice, call,
+/// choice, call, choice in evaluation order (JIT call-outs sit between the
+/// writes to the choice array)
+pub fn calls_between_choices(inner: B, outer: B, h: U, g: U, third: bool, imm: bool) -> Prog {
+    let mut p = Prog::default();
+    let x = p.push(POp::Var(0));
+    let y = p.push(POp::Var(1));
+    let t1 = p.push(POp::Un(h, x));
+    let c1 = p.push(POp::Bin(inner, t1, y));
+    let t2 = p.push(POp::Un(g, c1));
+    let rhs = if imm { p.push(POp::Const(0.5)) } else { x };
+    let c2 = p.push(POp::Bin(outer, t2, rhs));
+    let root = if third {
+        let t3 = p.push(POp::Un(h, c2));
+        p.push(POp::Bin(inner, y, t3))
+    } else {
+        c2
+    };
+    p.roots = vec![root];
+    p
+}
